@@ -5,7 +5,7 @@ E1: SimpsonStack (all accept/split verdict trees to depth 3/4: pending + accepte
     textbook recursion as work reference.
 E3 design level: real-valued runs of integrate_simpson, integrate_fixed and the five Gaussian integrators are reproduced bit
     for bit (abscissae, verdicts, returned value) by SimpsonStack's own actions, RombergP and GaussStop + the shipped tables
-    over doubles (Trace_Simpson, Trace_Romberg, Trace_Gauss).
+    over doubles (Trace_Simpson, Trace_Romberg, Trace_Gauss); tanh-sinh runs by TanhSinhStop + the shipped table (Trace_TanhSinh).
 E3: seeded runs of the eight routines with a recording integrand; TLC (Val_C09, module Quad) compares with closed-form
     (weighted) integrals, checks error cases, abscissae inside the interval, Romberg exactness on polynomials of degree
     <= 2n-1, and adaptive Simpson's work against the textbook recursion run by TLC on the same input."""
@@ -130,7 +130,7 @@ def gen(ctx, rng, n):
         if routine in WEIGHTED:
             tol = (1 if tol > 0 else -1) * 10.0 ** (-rng.uniform(3, 9))
         cases.append({"routine": routine, "cx": cx, "a": fp(a), "b": fp(b), "tol": fp(tol), "n": nrom if routine == "romberg" else 40,
-                      "budget": 2000000, "keep": 6000 if not cx and routine != "tanhsinh" else 64, "f": f, "mustok": must,
+                      "budget": 2000000, "keep": 6000 if not cx else 64, "f": f, "mustok": must,
                       "work": routine == "simpson" and f["k"] != "poly"})
         if routine == "simpson" and rng.random() < 0.1:
             cases[-1]["n"] = rng.choice([2, 3, 5])         # shallow depth limits: the depth error path
@@ -148,7 +148,8 @@ def gen(ctx, rng, n):
         else:
             w = rng.uniform(6.0, 25.0) / (b - a)
             f = {"k": "sin", "c": [c11.cz(0.0)], "p": [fp(rng.uniform(0.5, 2)), fp(w), fp(rng.uniform(0, 6.28))]}
-        cases.append({"routine": "tanhsinh", "cx": False, "a": fp(a), "b": fp(b), "tol": fp(tol), "n": 40, "budget": 2000000, "keep": 64,
+        cases.append({"routine": "tanhsinh", "cx": False, "a": fp(a), "b": fp(b), "tol": fp(tol), "n": 40, "budget": 2000000,
+                      "keep": 6000 if k % 4 == 0 else 64,
                       "f": f, "mustok": True, "work": False})
     return cases
 
@@ -179,6 +180,11 @@ def judge(ctx, cases):
         vlib.vh("tables", tab)
         for fam in ("legendre",) + tuple(WEIGHTED):
             jobs.append(("gauss", [r for r in gauss if r["routine"] == fam], "Trace_Gauss", {"VH_FAMILY": fam, "VH_TABLES": tab}))
+    ts = [r for r in real if r["routine"] == "tanhsinh"]
+    if ts:
+        tab = ctx.path("tables.ndjson")
+        vlib.vh("tables", tab)
+        jobs.append(("tanhsinh", ts, "Trace_TanhSinh", {"VH_TABLES": tab}))
     for kind, grp, module, env in jobs:
         if not grp:
             continue
@@ -209,6 +215,7 @@ def run(ctx):
     ctx.add_tlc(r, e1=True)
     ctx.add_tlc(vlib.tlc("GaussStop", cfg="GaussStop.cfg", workers=2, timeout=600, deque=False), e1=True)
     ctx.add_tlc(vlib.tlc("MC_RombergP", workers=2, timeout=600, deque=False), e1=True)
+    ctx.add_tlc(vlib.tlc("TanhSinhStop", cfg="TanhSinhStop.cfg", workers=2, timeout=600, deque=False), e1=True)
     judge(ctx, gen(ctx, rng, 1600 if ctx.tier == "quick" else 16000))
     ctx.rule = ("8 routines x seeded integrands (polynomials, a e^{cx}, a sin(wx+p), a e^{i(wx+p)}) with closed-form integrals, intervals of "
                 "length 0.05..4 in [-5,5], tol 1e-11..1e-3, real and complex; reversed / empty intervals and negative tolerances; Romberg on "
@@ -219,5 +226,5 @@ def run(ctx):
 
 
 def replay(ctx, body):
-    c = dict(body["case"], budget=2000000, keep=6000 if body["case"].get("routine") != "tanhsinh" else 64)
+    c = dict(body["case"], budget=2000000, keep=6000)
     judge(ctx, [c, dict(c)])
